@@ -61,6 +61,20 @@ func (in *c16Input) fill() {
 	in.File = filepath.Join(dir, rapid.VerifSafeFilename(in.Name)+"-20260102030405-4242.fail")
 }
 
+// c16Expected: the specified content of a fail file, written independently of saveFailFile: every line
+// of the captured output as a "# " comment, then "<version>#<seed>", then one "0x..." word per line.
+func c16Expected(in *c16Input) string {
+	var b strings.Builder
+	for _, ln := range strings.Split(string(in.Out), "\n") {
+		b.WriteString("# " + ln + "\n")
+	}
+	b.WriteString(fmt.Sprintf("%s#%d", rapid.VerifVersion(), 99))
+	for _, w := range in.Buf {
+		b.WriteString(fmt.Sprintf("\n0x%x", w))
+	}
+	return b.String()
+}
+
 const c16Older = "# older failure\nv0.4.8#7\n0x1\n0x2"
 
 func (in *c16Input) prepareDir() {
@@ -155,6 +169,9 @@ func c16ShimUnit(in c16Input) Unit {
 		vfs.H = nil
 		refb, _ := os.ReadFile(in.File)
 		reference := string(refb)
+		if exp := c16Expected(&in); reference != exp {
+			c.Violate(Violation{Sig: "C16 uninterrupted-save-writes-other-content", Detail: fmt.Sprintf("uninterrupted save: %d bytes, specified content: %d bytes (common prefix %d)", len(reference), len(exp), commonPrefix(reference, exp)), Replay: map[string]any{"input": in}})
+		}
 		if p, _, tmp := c16Inspect(&in, reference); len(p) > 0 || tmp > 0 {
 			c.Violate(Violation{Sig: "C16 uninterrupted-save-leaves-bad-state", Detail: fmt.Sprintf("%v, %d temp files left", p, tmp), Replay: map[string]any{"input": in}})
 		}
@@ -186,6 +203,45 @@ func c16ShimUnit(in c16Input) Unit {
 						Replay: map[string]any{"engine": "shim", "input": in, "crash_op": k, "keep": keep, "ops": rec.ops[:min(len(rec.ops), 30)]}, Devs: k})
 				}
 				_ = err
+			}
+		}
+		// two-step history: an earlier, bigger save of the same test died mid-way (leaving whatever temporary
+		// state the implementation uses); a later uninterrupted save must still publish exactly its own content
+		big := in
+		big.Lines, big.Words = 60, in.Words+300
+		big.fill()
+		big.File = strings.Replace(in.File, "-20260102030405-", "-20260102030404-", 1)
+		expected := c16Expected(&in)
+		in.prepareDir()
+		recBig := &c16Hook{crashAt: -1}
+		vfs.H = recBig
+		rapid.VerifSaveFailFile(big.File, rapid.VerifVersion(), big.Out, 99, big.Buf)
+		vfs.H = nil
+		for k, op := range recBig.ops {
+			if !strings.HasPrefix(op, "write:") && !strings.HasPrefix(op, "rename:") && !strings.HasPrefix(op, "close:") {
+				continue
+			}
+			if c.Quick() && strings.HasPrefix(op, "write:") && k%7 != 0 && k != len(recBig.ops)-5 {
+				continue
+			}
+			in.prepareDir()
+			var n int
+			fmt.Sscanf(op, "write:%d", &n)
+			vfs.H = &c16Hook{crashAt: k, keep: n / 2}
+			rapid.VerifSaveFailFile(big.File, rapid.VerifVersion(), big.Out, 99, big.Buf) // dies at operation k
+			vfs.H = nil
+			os.Remove(big.File) // whatever the killed save published is not the subject here
+			err := rapid.VerifSaveFailFile(in.File, rapid.VerifVersion(), in.Out, 99, in.Buf)
+			c.R.Evals++
+			c.R.States++
+			got, _ := os.ReadFile(in.File)
+			c.Outcome(fmt.Sprintf("history crash@%s then clean save: %d bytes err=%v", op, len(got), err != nil), true)
+			if err != nil || string(got) != expected {
+				c.Violate(Violation{Sig: "C16 leftover-of-a-killed-save-corrupts-a-later-save", Detail: fmt.Sprintf("an earlier save of %d bytes was killed at operation %d (%s); the next uninterrupted save published %d bytes instead of its %d (common prefix %d, err %v)", len(c16Expected(&big)), k, op, len(got), len(expected), commonPrefix(string(got), expected), err),
+					Replay: map[string]any{"engine": "shim-history", "input": in, "crash_op": k}})
+			}
+			if problems, _, _ := c16Inspect(&in, expected); len(problems) > 0 {
+				c.Violate(Violation{Sig: "C16 partial-file-visible after-history", Detail: fmt.Sprintf("after killed save (op %d %s) + clean save: %v", k, op, problems), Replay: map[string]any{"engine": "shim-history", "input": in, "crash_op": k}})
 			}
 		}
 	}}
